@@ -136,6 +136,12 @@ def run(ctx):
     nval = af.judge(ctx, scenarios, results, events, "c11", "C11")
     cov["traces_validated_against_impl"] = nval
     cov["binary_cross_listener_rounds"] = binary_leg(ctx, 20 if not thorough else 80)
+    # TwoWriters.tla: what the serialisation is for.  Serialised operations are explained by a sequential order (MC_TwoWriters_serial,
+    # SomeOrderExplains / OneFilePerUser); the same library calls interleaved freely are not (refuted variants), and the races the
+    # model predicts are reproduced with two real processes (the outcomes with two files for one user)
+    import fsfam
+    tw = [o for o in fsfam.two_writers_model(ctx, thorough) if o["view"]["U"] != "absent" and o["view"]["A"] != "absent"]
+    fsfam.two_writer_runs(ctx, fsfam.Driver(ctx), tw, {"torn": "C08", "loser": "C15", "others": "C15", "seq": "C11", "crash": "C11"})
     cov["evaluations"] = len(events)
     cov["distinct_nontrivial"] = len({json.dumps({k: e.get(k) for k in ("ev", "c", "k", "u", "p", "a", "ok")}) for e in events})
     cov["rule"] = ("each recorded run of the real dispatcher (gated model behaviours, TLC counterexamples of wrong "
